@@ -11,7 +11,7 @@
 //verif:obligation C18.a certManager.init for every start instant (1970+1 month .. 2200) and every 16-bit key prefix (hence every bucket offset): the served certificate has been valid for at least the clock-skew allowance, stays valid for at least that long, and its validity is exactly 14 days; the bucket start is a deterministic function of (instant, offset)
 //verif:obligation C18.b rollConfig driven by a punctual timer, 0..3 rollovers: at every instant of a certificate's serving interval [activation, End - skew] it has been valid >= skew and stays valid >= skew; the timer is armed for exactly End - skew; the advertised hashes always contain the previously served, the served and the next certificate (so an address learned in one period keeps verifying through the following one) and the address component lists exactly served + next; a restart at any instant of a serving interval recomputes the same certificate start
 //verif:obligation C18.d the real background() rollover goroutine driven by benbjohnson's mock clock through 2 (thorough 3) rollovers from every start instant and key prefix: at an arbitrary instant up to an hour before End - skew the served certificate has not changed, at End - skew it is the next one, and at both instants the served certificate has been valid for the clock-skew allowance (the re-armed timer is neither early nor late)
-//verif:obligation C18.c verifyRawCerts accepts a leaf only if its SHA-256 equals a SHA2-256 hash of the dialed address, it is not an RSA certificate, its lifetime is at most 14 days and it is currently valid
+//verif:obligation C18.c verifyRawCerts accepts a leaf only if its SHA-256 equals a SHA2-256 hash of the dialed address, it is not an RSA certificate, its lifetime is at most 14 days and it is currently valid - on every presentation: a second verification of the same certificate at an arbitrary later instant is decided by the clock of that moment
 //verif:bound instants anywhere in [2.6e6 s, 7.2e9 s] at nanosecond resolution, all 65536 key prefixes, <= 3 rollovers, <= 2 certificate hashes in the dialed address
 //verif:stub newCertConfig (HKDF/ECDSA/x509 generation) replaced by a stub that builds a real certConfig with the requested NotBefore/NotAfter and a fresh distinct hash; addrComponentForCert replaced by an injective stub; multihash.Encode modelled as 0x12 0x20 || digest (its real output); sha256.Sum256 / x509.ParseCertificate / time.Now substituted at their call sites by harness stubs; clock = harness stub; a late timer is an environment fault the statement does not cover (punctual timer)
 //verif:outside that generateCert is deterministic in (key, start), actual hash values, the TLS / QUIC handshake, the dialer's early-data confirmation of the hashes
@@ -197,6 +197,14 @@ func VerifC18cVerifyRawCerts() {
 		vAssert(!rsa, "RSA certificates are not accepted")
 		vAssert(na-nb <= int64(14*24*time.Hour), "certificates valid for more than 14 days are not accepted")
 		vAssert(nb <= now && now <= na, "only currently valid certificates are accepted")
+		// the same pinned certificate again, later (a redial): the rules are evaluated every time
+		later := vRange64(0, 1<<61)
+		vAssume(later >= now)
+		now = later
+		if verifyRawCerts(raw, hashes) == nil {
+			vCover("accepted-again")
+			vAssert(nb <= later && later <= na, "a certificate accepted once is checked again when it is presented again: it must still be valid")
+		}
 	} else {
 		vCover("rejected")
 	}
